@@ -1,0 +1,41 @@
+//! Verification hooks (only compiled with `--cfg datacake_verif`).
+
+use std::borrow::Cow;
+use std::collections::BTreeMap;
+
+use tokio::sync::watch;
+use tokio_stream::wrappers::WatchStream;
+
+pub use crate::node::NodeMembership;
+pub use crate::nodes_selector::{start_node_selector, NodeCycler};
+use crate::nodes_selector::NodeSelectorHandle;
+use crate::{ClusterStatistics, MembershipChange, NodeId, Nodes, RpcNetwork};
+
+/// Public wrapper around the crate-private `NodeSelectorHandle::set_nodes`.
+pub async fn set_nodes(
+    handle: &NodeSelectorHandle,
+    data_centers: BTreeMap<Cow<'static, str>, Nodes>,
+) {
+    handle.set_nodes(data_centers).await
+}
+
+/// Runs the real `watch_membership_changes` task over a caller supplied
+/// channel of membership snapshots and returns the channel it publishes to.
+pub fn spawn_membership_watcher(
+    self_node_id: NodeId,
+    node_selector: NodeSelectorHandle,
+    snapshots: watch::Receiver<NodeMembership>,
+) -> (watch::Receiver<MembershipChange>, RpcNetwork, ClusterStatistics) {
+    let network = RpcNetwork::default();
+    let statistics = ClusterStatistics::default();
+    let (tx, rx) = watch::channel(MembershipChange::default());
+    tokio::spawn(crate::watch_membership_changes(
+        self_node_id,
+        network.clone(),
+        node_selector,
+        statistics.clone(),
+        WatchStream::new(snapshots),
+        tx,
+    ));
+    (rx, network, statistics)
+}
